@@ -287,8 +287,8 @@ def _c17_case(seed):
 
 def bounded_labels(tier, seed):
     b = Bounded("C17.plot-labels-at-the-drawing-backend", "4 module trees (nested, prefix-named siblings, names with regex metacharacters), random subsets of modules / level_limit=1; alias maps over 0-4 existing "
-                "modules with alias strings containing dots and regex metacharacters; with and without spacing and extra drawing options; observed at the intercepted draw_networkx call; 300/5000 cases")
-    for res in pmap(_c17_case, [seed * 100003 + i for i in range(300 if tier == "quick" else 5000)]):
+                "modules with alias strings containing dots and regex metacharacters; with and without spacing and extra drawing options; observed at the intercepted draw_networkx call; 2500/25000 cases")
+    for res in pmap(_c17_case, [seed * 100003 + i for i in range(2500 if tier == "quick" else 25000)]):
         b.case()
         for v in res:
             b.violation(v["case"], v["detail"], v["input"])
@@ -336,8 +336,8 @@ def _c14l_case(seed):
 
 def bounded_layer_label_renaming(tier, seed):
     b = Bounded("C14.layer-attribution-and-labels-under-renaming", "12-module tree, 1-6 imports, random name-defined layers, one random layer-rule shape and one alias map; compared under one collision-free and two "
-                "adversarial injective component renamings; 150 (quick) / 2500 cases")
-    for res in pmap(_c14l_case, [seed * 100003 + i for i in range(150 if tier == "quick" else 2500)]):
+                "adversarial injective component renamings; 600 (quick) / 6000 cases")
+    for res in pmap(_c14l_case, [seed * 100003 + i for i in range(600 if tier == "quick" else 6000)]):
         b.case()
         for v in res:
             b.violation(v["case"], v["detail"], v["input"])
